@@ -130,6 +130,7 @@ func report(o *checkOpts, cfg *PropConfig, eng *Engine, results []*FuncResult, o
 	known, fixed := loadKnownFindings(filepath.Join(o.verif, "KNOWN_FINDINGS.txt"))
 	_ = fixed
 	var failed, vacuityFail, vacuityUnknown []*Obligation
+	var deadExits []string
 	discharged := 0
 	total := 0
 	bySolver := map[string]int{}
@@ -143,6 +144,10 @@ func report(o *checkOpts, cfg *PropConfig, eng *Engine, results []*FuncResult, o
 			switch ob.Res.Status {
 			case "sat":
 			case "unsat":
+				if ob.Kind == "reach" {
+					deadExits = append(deadExits, ob.Desc+" ("+ob.Name+")")
+					continue
+				}
 				vacuityFail = append(vacuityFail, ob)
 			default:
 				vacuityUnknown = append(vacuityUnknown, ob)
@@ -252,6 +257,7 @@ func report(o *checkOpts, cfg *PropConfig, eng *Engine, results []*FuncResult, o
 		"translation_dropped":      dropped,
 		"assume_scan":              map[string]interface{}{"trusted_clauses_in_contract_files": assumeScan},
 		"vacuity":                  map[string]interface{}{"probes_sat": countProbes(obls, "sat"), "probes_unknown": len(vacuityUnknown), "probes_unsat": len(vacuityFail)},
+		"dead_exits":               deadExits,
 		"known_findings_hit":       knownHit,
 		"failed_obligations":       names(failed),
 		"engine_errors":            engineErrs,
@@ -280,6 +286,9 @@ func report(o *checkOpts, cfg *PropConfig, eng *Engine, results []*FuncResult, o
 		fmt.Println(l)
 	}
 	fmt.Printf("%s tier=%s: %d obligations, %d discharged, %d failed (%d known), %d functions, %d lemmas, %.1fs\n", o.prop, o.tier, nobl, discharged, len(failed), len(knownHit), len(funcs), len(lemmas), time.Since(t0).Seconds())
+	for _, d := range deadExits {
+		fmt.Fprintln(os.Stderr, "WARNING: unreachable exit (its obligations hold vacuously):", d)
+	}
 	if len(engineErrs) > 0 {
 		for _, e := range engineErrs {
 			fmt.Fprintln(os.Stderr, "ENGINE-ERROR:", e)
